@@ -411,8 +411,26 @@ def check(fx, rep, tier):
     trailing = [(t, e) for t, e in outside if t == invalid_type]
     n_state = 0
     n_data = 0
+    def _let_init(lid):
+        for m_, _ in F.walk(v):
+            if m_.get("s") == "Let" and "init" in m_ and m_["pat"].get("p") == "Bind" and m_["pat"].get("local") == lid:
+                return m_["init"]
+        return None
+
+    def _locals_through_lets(e_, depth=0):
+        out = set()
+        for m_, _ in F.walk(e_):
+            if m_.get("k") == "Path" and m_.get("res") == "local":
+                out.add(m_.get("local"))
+                if depth < 2 and m_.get("local") not in state_values:
+                    i_ = _let_init(m_.get("local"))
+                    if i_ is not None:
+                        out |= _locals_through_lets(i_, depth + 1)
+        return out
+
     for t, e in trailing:
-        used_state = any(m.get("k") == "Path" and m.get("res") == "local" and m.get("local") in state_values for m, _ in F.walk(e))
+        # the push byte may be rebuilt from the captured state through a let (`let b = BASE + push_size; Invalid::new(b)`)
+        used_state = bool(_locals_through_lets(e) & set(state_values))
         if used_state:
             n_state += 1
         else:
